@@ -953,7 +953,7 @@ func (s *Spec) flushedInTime(e *Exec) {
 	if s.off || s.faulted || s.outside || s.crashCtx != "" || s.mute || !e.cfg.Async || s.variant > 1 {
 		return
 	}
-	if s.ticksQuiet < e.cfg.To+1 {
+	if s.ticksQuiet < 1 {
 		return
 	}
 	have := map[int]bool{}
@@ -969,11 +969,22 @@ func (s *Spec) flushedInTime(e *Exec) {
 			}
 		}
 	}
+	missing, first := 0, 0
 	for u := range s.live {
 		if !have[u] {
-			s.fail(e, "C10", "asynchronous writes: object #%d was accepted, the flusher was ticked %d times (timeout %d steps) with no call in between, and it has no file", u, s.ticksQuiet, e.cfg.To)
-			return
+			missing++
+			if first == 0 || u < first {
+				first = u
+			}
 		}
+	}
+	if missing == 0 {
+		return
+	}
+	if s.ticksQuiet >= e.cfg.To+1 {
+		s.fail(e, "C10", "asynchronous writes: object #%d was accepted, the flusher was ticked %d times (timeout %d steps) with no call in between, and it has no file", first, s.ticksQuiet, e.cfg.To)
+	} else if missing >= e.cfg.Thr && e.cfg.Thr > 0 {
+		s.fail(e, "C10", "asynchronous writes: %d accepted objects have no file (threshold %d) although the flusher was ticked %d time(s) since the last call", missing, e.cfg.Thr, s.ticksQuiet)
 	}
 }
 
